@@ -489,9 +489,14 @@ impl CCfg {
 }
 
 pub fn compactor(store: &FaultStore, c: &CCfg) -> Compactor<FaultStore, FixedTime> {
+    compactor_ms(store, c, 0)
+}
+
+/// … with the `max_segments` threshold `needs_compaction` / `compact_if_needed` read
+pub fn compactor_ms(store: &FaultStore, c: &CCfg, max_segments: u64) -> Compactor<FaultStore, FixedTime> {
     let cfg = CompactionConfig {
         target_segment_size: c.target as usize,
-        max_segments: 0,
+        max_segments: max_segments as usize,
         min_segments_to_compact: c.min as usize,
         max_segments_per_compaction: c.maxper as usize,
         tombstone_ttl: c.ttl,
@@ -783,6 +788,30 @@ impl Proc {
             },
         };
         self.log(out, format!("COMPACT {} {} {} {} {} {}", c.target, c.min, c.maxper, c.now, c.ttl.as_millis(), sz), format!("{} calls={}", ans, calls));
+        r
+    }
+    /// `Compactor::compact_if_needed` with the `max_segments` threshold (op line CIFNEEDED)
+    pub async fn compact_if_needed(&mut self, out: &mut Out, c: &CCfg, max_segments: u64) -> Result<Option<redis_sim::streaming::CompactionResult>, CompactionError> {
+        let mut comp = compactor_ms(&self.store, c, max_segments);
+        let r = comp.compact_if_needed().await;
+        let calls = self.store.calls();
+        let ids = |l: &Vec<redis_sim::streaming::SegmentInfo>| format!("[{}]", l.iter().map(|s| s.id.to_string()).collect::<Vec<_>>().join(","));
+        let (sz, ans) = match &r {
+            Ok(None) => (0, "nothing".to_string()),
+            Err(CompactionError::NothingToCompact) => (0, "nothing".to_string()),
+            Err(_) => (0, "err".to_string()),
+            Ok(Some(cr)) => match &cr.segment_created {
+                Some(s) => (s.size_bytes, format!("compacted {} -> {} n={} tombs={}", ids(&cr.segments_removed), s.id, s.record_count, cr.tombstones_removed)),
+                None => {
+                    if !cr.segments_removed.is_empty() && cr.deltas_before == 0 && cr.bytes_reclaimed == 0 && cr.tombstones_removed == 0 && cr.deltas_after == 0 {
+                        (0, format!("cleaned {}", ids(&cr.segments_removed)))
+                    } else {
+                        (0, format!("emptied {} tombs={}", ids(&cr.segments_removed), cr.tombstones_removed))
+                    }
+                }
+            },
+        };
+        self.log(out, format!("CIFNEEDED {} {} {} {} {} {} {}", c.target, c.min, c.maxper, c.now, c.ttl.as_millis(), max_segments, sz), format!("{} calls={}", ans, calls));
         r
     }
     pub async fn rec(&mut self, out: &mut Out) -> Result<RecoveredState, RecoveryError> {
